@@ -139,7 +139,7 @@ package validate
 // queries tolerate a nil receiver; validity is exactly the absence of errors
 //@ func (*Result).IsValid
 //@   pure
-//@   ensures[C20,C17] result == (r == nil || len(r.Errors) == 0)
+//@   ensures[C20,C17,C10] result == (r == nil || len(r.Errors) == 0)
 //@ func (*Result).HasErrors
 //@   pure
 //@   ensures[C20,C17] result == (r != nil && len(r.Errors) > 0)
@@ -987,5 +987,35 @@ package validate
 //@ func AgainstSchema
 //@   effects validation
 //@   maypanic
+//@   ensures[C17] (result == nil) == (len(res.Errors) == 0)
 //@   requires[C06] isJSON(data)
 //@   modifies elems(options)
+
+// ---------------------------------------------------------------------------
+// C18 / C19 (frame halves): applying defaults only adds members that were absent, pruning only removes members;
+// neither changes the value of a member that stays. (Which members get a default / are pruned depends on the
+// schemata bookkeeping of the validators, which is not under contract.)
+//@ func (*Result).FieldSchemata
+//@   requires r != nil
+//@   modifies r.cachedFieldSchemata
+//@ func post.ApplyDefaults
+//@   requires r != nil
+//@   modifies heap("D$map[string]interface{}"), heap("V$map[string]interface{}"), r.cachedFieldSchemata
+//@   ensures[C18] membersKept("map[string]interface{}")
+//@   loop 1 invariant[C18] membersKept("map[string]interface{}")
+//@   loop 2 invariant[C18] membersKept("map[string]interface{}")
+//@ func post.pruneObject
+//@   requires result != nil
+//@   modifies heap("D$map[string]interface{}"), result.cachedFieldSchemata
+//@   ensures[C19] noNewMembers("map[string]interface{}")
+//@   loop 1 invariant[C19] noNewMembers("map[string]interface{}")
+//@ func post.prune
+//@   requires result != nil
+//@   modifies heap("D$map[string]interface{}"), result.cachedFieldSchemata
+//@   ensures[C19] noNewMembers("map[string]interface{}")
+//@   loop 1 invariant[C19] noNewMembers("map[string]interface{}")
+//@   loop 2 invariant[C19] noNewMembers("map[string]interface{}")
+//@ func post.Prune
+//@   requires r != nil
+//@   modifies heap("D$map[string]interface{}"), r.cachedFieldSchemata
+//@   ensures[C19] noNewMembers("map[string]interface{}")
